@@ -181,9 +181,14 @@ def check_case(c):
                 cand = [(float(refs.vsep(x.ra, x.dec, y.ra, y.dec)), k) for k, y in enumerate(pool)]
             B.append(pool.pop(min(cand)[1]))
         ncomp_isl = {}
+        isl_err = {}
         for x in A:
             if isinstance(x, ComponentSource):
                 ncomp_isl[x.island] = ncomp_isl.get(x.island, 0) + 1
+                for en in ("err_ra", "err_dec", "err_peak_flux", "err_int_flux", "err_a", "err_b", "err_pa"):
+                    e = getattr(x, en, None)
+                    if e is not None and np.isfinite(e) and e > 0:
+                        isl_err[(x.island, en)] = max(isl_err.get((x.island, en), 0.0), float(e))
         for x, y in zip(A, B):
             if isinstance(x, ComponentSource) and isinstance(y, ComponentSource) and ncomp_isl.get(x.island, 0) >= 3:
                 # an island fitted with >= 3 components in noise is an over-parameterised problem with several local
@@ -220,15 +225,25 @@ def check_case(c):
                             what, x.ra, x.dec, x.peak_flux, y.peak_flux, x.flags, y.flags), **tags)
                         break
                     continue
+            # The components of a jointly fitted island are correlated: the flat direction along which the two polarities'
+            # end points differ mixes them, so its extent in one component's parameter is set by the least constrained
+            # component.  Tolerances of a 2-component island therefore use the island's largest reported error of that
+            # parameter (seen: 0.74 of a component's own sigma next to a companion with a 20 % flux error).
+            def E(en, x=x):
+                own = getattr(x, en, -1)
+                if isinstance(x, ComponentSource) and ncomp_isl.get(x.island, 0) >= 2 and (x.island, en) in isl_err:
+                    return isl_err[(x.island, en)]
+                return own
+            if isinstance(x, ComponentSource) and ncomp_isl.get(x.island, 0) >= 2:
+                res.label("joint-fit-row(island-wide error)")
             dpos = float(refs.vsep(x.ra, x.dec, y.ra, y.dec))
-            epos = math.hypot(getattr(x, "err_ra", 0) if getattr(x, "err_ra", 0) > 0 else 0,
-                              getattr(x, "err_dec", 0) if getattr(x, "err_dec", 0) > 0 else 0)
+            epos = math.hypot(E("err_ra") if E("err_ra") > 0 else 0, E("err_dec") if E("err_dec") > 0 else 0)
             if not dpos <= 0.3 * epos + 1e-7:
                 res.bad("mirror-position", "%s: a source moves by %.3g deg (%.3g reported sigma) when the image is negated" % (
                     what, dpos, dpos / epos if epos else float("inf")), **tags)
                 break
-            epk = getattr(x, "err_peak_flux", -1)
-            eint = getattr(x, "err_int_flux", -1)
+            epk = E("err_peak_flux")
+            eint = E("err_int_flux")
             if not (abs(x.peak_flux + y.peak_flux) <= tol(epk, x.peak_flux) and
                     (not (np.isfinite(x.int_flux) and np.isfinite(y.int_flux)) or
                      abs(x.int_flux + y.int_flux) <= tol(eint, x.int_flux) + 3e-5 * abs(x.int_flux))):
@@ -240,10 +255,13 @@ def check_case(c):
             if isinstance(x, ComponentSource):
                 badf = []
                 for n, en in (("a", "err_a"), ("b", "err_b")):
-                    if not abs(getattr(x, n) - getattr(y, n)) <= tol(getattr(x, en), getattr(x, n)) + 1e-5 * abs(getattr(x, n)):
+                    if not abs(getattr(x, n) - getattr(y, n)) <= tol(E(en), getattr(x, n)) + 1e-5 * abs(getattr(x, n)):
                         badf.append(n)
                 dpa = abs(float(refs.angdiff(x.pa, y.pa, 180.0)))
-                if not dpa <= tol(x.err_pa, 1.0) + 1e-4:
+                # for a (nearly) round fit the position angle is not part of the shape: turning an ellipse by d moves its
+                # outline by at most (a - b) |sin d|, which is held to the tolerance of the axis lengths
+                outline = abs(x.a - x.b) * abs(math.sin(math.radians(dpa)))
+                if not (dpa <= tol(E("err_pa"), 1.0) + 1e-4 or outline <= tol(E("err_a"), x.a) + 1e-5 * abs(x.a)):
                     badf.append("pa")
                 for n in ("err_ra", "err_dec", "err_peak_flux", "err_a", "err_b", "err_pa", "err_int_flux", "local_rms", "psf_a", "psf_b"):
                     if n == "err_pa" and x.err_pa > 10 and y.err_pa > 10:
